@@ -64,7 +64,8 @@ def gen_lineage_model(r, absorb=False, allow_death=True):
         if r.random() < 0.5:
             death = {"kind": "event", "k": netgen.nice(r.uniform(0.1, 1.0) / horizon)}
         else:
-            death = {"kind": "rule_species", "specie": r.choice(species), "threshold": r.choice([25, 40, 60]), "comp": ">"}
+            # (small thresholds make cells die at birth: the record of such a cell must still be a real row)
+            death = {"kind": "rule_species", "specie": r.choice(species), "threshold": r.choice([1, 4, 25, 40, 60]), "comp": ">"}
     sk = r.choice(["lineage", "lineage", "lineage", "perfect_binomial", "general"])
     splitter = {"kind": sk}
     if sk == "lineage":
